@@ -28,9 +28,14 @@ static Bytes telWire(const Tel& t) {
   Bytes b;
   // nakM/nakS: 1 = first attempt with wrong CRC and NAK-ed, 2 = correct first attempt NAK-ed, 3 = NAK-ed twice and sent
   // a third time without a SYN in between (second NAK: nothing of it may be reported)
-  if (t.nakM) b = cat(cat(b, ref::wirePart(t.master, t.nakM == 1 ? 0x01 : 0)), Bytes{ref::NAK});
+  if (t.nakM) b = cat(cat(b, ref::wirePart(t.master, (t.nakM == 1 || t.nakM == 4) ? 0x01 : 0)), Bytes{ref::NAK});
   if (t.nakM == 3) b = cat(cat(b, ref::wirePart(t.master)), Bytes{ref::NAK});
-  b = cat(b, ref::wirePart(t.master));
+  if (t.nakM == 4) {  // the repetition comes with a NON-master source (CRC correct for the repeated bytes): never a message
+    Bytes m2 = t.master; m2[0] = 0x01;
+    b = cat(b, ref::wirePart(m2));
+  } else {
+    b = cat(b, ref::wirePart(t.master));
+  }
   uint8_t zz = t.master[1];
   if (zz == ref::BROADCAST) return b;
   b.push_back(ref::ACK);
@@ -74,6 +79,7 @@ static std::vector<Tel> catalogue(bool full) {
   c.push_back(mk("1008b509020d00", "015a", 3, 0));     // master part NAK-ed twice, then sent a third time without SYN
   c.push_back(mk("1030b5100155", "", 3, 0));           // the same for a master-master telegram
   c.push_back(mk("1008b509020d00", "015a", 0, 3));     // slave part NAK-ed twice, then sent a third time
+  c.push_back(mk("1008b509020d00", "015a", 4, 0));     // NAK-ed first attempt, repetition with a non-master source and its own correct CRC
   if (full) {
     c.push_back(mk("1008b509020d00", "015a", 2, 2));   // both parts NAK-ed although good
     c.push_back(mk("1008b509020d00", "015a", 1, 1));
